@@ -214,6 +214,10 @@ def structured_cases(rng, n):
             pre, post = rng.choice([('', ''), ('x ', ''), ('', ' y'), ('[', ']'), ('x ', ' y')])
             src = '#define P(%s) %s%s%s\n> P(%s) <\n#define Q(%s) %s %s ## %s %s\n> Q(%s) <\n' % (','.join(ps), pre, body, post, args, ','.join(ps), pre, ' ## '.join(ps[:-1]), ps[-1], post, args)
             out.append((src, {'struct:paste-chain-%d-operands' % nops}))
+    # what follows the macro name decides between object-like and function-like: only a "(" on the same line without white space
+    for body in ['(y) z', '(x)', '( a , b ) c', '()', '(y) z (w)']:
+        for sep in ['\n', ' ', '\t', ' /**/ ', '/**/', '\\\n', ' \\\n', '']:
+            out.append(('#define X%s%s\n> X(1) X (2) X <\n#define Y%s%s\n> Y(3) <\n' % (sep, body, sep, body.replace('y', 'q').replace('x', 'q')), {'struct:define-name-then-paren'}))
     names = ['ID', 'APPLY', 'B', 'CALL', 'WRAP', 'F', 'G', 'H']
     for i in range(n):
         r = rng.random()
